@@ -50,7 +50,7 @@ fn fair_premise_met(sc: &Scenario) -> bool {
             Some(e) => e.iter().filter(|d| d.drop).count() <= 3,
             None => sc.net.drop_total.is_some_and(|t| t <= 3),
         };
-        if d_us <= 100_000 && k <= 1 && total_ok {
+        if d_us <= 90_000 && k <= 1 && total_ok {
             // defaults are enough
             return o.max_retx() >= 5 && o.inactivity_ms() >= 10_000;
         }
